@@ -10,7 +10,10 @@ def check(ctx):
     thorough = ctx.tier == "thorough"
     ctx.build()
     seeds = os.path.join(ctx.scratch, "c03_seeds.ndjson")
-    ctx.vh_ok(["c03-seeds", seeds])
+    # valid bodies per version / dialect from the specification's layouts (the captures only know the 2013 / JS forms)
+    lay = os.path.join(ctx.scratch, "c03_layout_cases.ndjson")
+    ctx.tlc("MC_Layouts", constants={"MaxList": 2}, env={"VERIF_OUT": lay}, workers=4)
+    ctx.vh_ok(["c03-seeds", seeds, lay])
     all_seeds = vlib.read_nd(seeds, quoted=False)
     if not thorough:
         # quick: per (target, ver, dialect) the longest and the shortest seed
@@ -49,7 +52,7 @@ def check(ctx):
                        "tails, and by a receiver that already parsed the previous body; distinct = distinct (target, mutation kind, verdict, length).")
     ctx.cov["exhaustive"] = True
     ctx.assumptions += ["the oracle for panic / non-termination / over-read / history dependence is the Go runtime and value comparison (JSON + String()), not the specification",
-                        "seeds come from the repository's own encoders (terminal simulator defaults) and the frames quoted in its test files",
+                        "seeds come from the repository's own encoders (terminal simulator defaults), the frames quoted in its test files, and the bodies MC_Layouts generates for every specified type, version and dialect",
                         "user-supplied CustomAdditionContentFunc callbacks are exercised only with the five shipped extension parsers"]
 
 
